@@ -11,14 +11,14 @@ def run(ctx):
     if not quick:
         broken += ctx.leanchecker(["PPLV.Props.C02"])
     broken += c02_rows.run(ctx)            # stage 2: the row-level implementations (proof + raw-row correspondence)
-    pc.run_poly(ctx, ops="all", n_hist=1000 if quick else 30000, length=10 if quick else 24,
-                maxdim=3 if quick else 4, observe_always=True, tag="all operators")
+    pc.run_poly(ctx, ops="all", n_hist=1000 if quick else 10000, length=10 if quick else 14,
+                maxdim=3, observe_always=True, tag="all operators")
     # focused batches: the predicate-valued variants and the relation-judged operators on
     # neighbouring (adjacent / overlapping / nested) arguments
     for bias, tag in ((31, "hull_if_exact on neighbours"), (29, "difference"), (28, "simplify_using_context"),
                       (34, "difference: leastness through verified piece generators"), (37, "conversions C <-> NNC"),
                       (40, "fold_space_dimensions")):
-        pc.run_poly(ctx, ops="all", n_hist=(700 if bias == 31 else 350 if bias < 34 else 200) if quick else 8000, length=8, maxdim=3,
+        pc.run_poly(ctx, ops="all", n_hist=(700 if bias == 31 else 350 if bias < 34 else 200) if quick else 4000, length=8, maxdim=3,
                     observe_always=False, bias=bias, first=1000000 * bias, tag=tag)
     for b in broken:
         ctx.violation("proof obligation broken: " + b, {"obligation": b}, found_input=False)
